@@ -101,6 +101,61 @@ func init() {
 				}
 			}
 		})
+		// text and values at every level of DEEP nesting (output blocks inside output blocks, loops inside
+		// loops, a template function that calls itself): nothing is dropped however deep it stands
+		for _, depth := range []int{1, 2, 8, 15, 16, 17, 18, 20, 24, 33, 40} {
+			var src, want strings.Builder
+			for d := 1; d <= depth; d++ {
+				fmt.Fprintf(&src, "<%%= if (true) { %%>i%d<%%= %d %%>", d, d)
+				fmt.Fprintf(&want, "i%d%d", d, d)
+			}
+			for d := depth; d >= 1; d-- {
+				fmt.Fprintf(&src, "o%d<%% } %%>", d)
+				fmt.Fprintf(&want, "o%d", d)
+			}
+			c := RCase{Tmpl: src.String()}
+			var o RObs
+			if depth <= 20 {
+				o = e.addRenderCase("deep-if", c)
+			} else {
+				o = runRender(c)
+				e.rep.Evaluations++
+			}
+			if o.Class != "OK" || o.Out != want.String() {
+				e.Violate("c02-concat", fmt.Sprintf("%d nested output-ifs: rendered %q (%s %s), want %q", depth, o.Out, o.Class, firstLine(o.Msg), want.String()), map[string]interface{}{"case": c, "observed": o})
+			}
+		}
+		for _, depth := range []int{1, 4, 7, 8, 9, 10, 12} {
+			var src, want strings.Builder
+			for d := 1; d <= depth; d++ {
+				fmt.Fprintf(&src, "<%%= for (v%d) in [%d] { %%>f<%%= v%d %%>", d, d, d)
+				fmt.Fprintf(&want, "f%d", d)
+			}
+			for d := depth; d >= 1; d-- {
+				fmt.Fprintf(&src, "e%d<%% } %%>", d)
+				fmt.Fprintf(&want, "e%d", d)
+			}
+			c := RCase{Tmpl: src.String()}
+			o := e.addRenderCase("deep-for", c)
+			if o.Class != "OK" || o.Out != want.String() {
+				e.Violate("c02-concat", fmt.Sprintf("%d nested loops: rendered %q (%s %s), want %q", depth, o.Out, o.Class, firstLine(o.Msg), want.String()), map[string]interface{}{"case": c, "observed": o})
+			}
+		}
+		for _, depth := range []int{3, 9, 10, 14, 20} {
+			tm := fmt.Sprintf("<%% let tree = fn(n) { %%>(<%%= n %%><%%= if (n > 0) { %%><%%= tree(n - 1) %%><%% } %%>)<%% } %%><%%= tree(%d) %%>", depth)
+			var want strings.Builder
+			for d := depth; d >= 0; d-- {
+				fmt.Fprintf(&want, "(%d", d)
+			}
+			want.WriteString(strings.Repeat(")", depth+1))
+			c := RCase{Tmpl: tm}
+			o := runRender(c)
+			e.rep.Evaluations++
+			e.Count("deep-recursion")
+			if o.Class != "OK" || o.Out != want.String() {
+				e.Violate("c02-concat", fmt.Sprintf("%s: rendered %q (%s %s), want %q", tm, o.Out, o.Class, firstLine(o.Msg), want.String()), map[string]interface{}{"case": c, "observed": o})
+			}
+		}
 		// bytes that are not UTF-8 (a template is a byte string: Latin-1 text, a truncated rune, a lone
 		// continuation byte, an encoded surrogate) stay as they are, as literal text, inside a string
 		// literal, in a comment tag and next to code
